@@ -50,6 +50,68 @@ def reader_validations(F, S):
     return out
 
 
+def _by_type(F, a):
+    """Abstract term with member paths that lead to a sub-object of record type named by that type
+    (`BitmapFile.imageHeader.compression` and a local `ImageHeader.compression` are the same thing)."""
+    if not isinstance(a, list) or not a:
+        return a
+    a = [_by_type(F, x) for x in a]
+    if a[0] == "mem" and len(a) == 3 and isinstance(a[1], list) and a[1] and a[1][0] == "V" and a[1][1] in F.records:
+        for f in F.records[a[1][1]]["fields"]:
+            if f["name"] == a[2]:
+                r = f.get("rec") or f.get("record") or (f.get("ct") or "").replace("const ", "").strip()
+                if r in F.records:
+                    return ["V", r]
+    return a
+
+
+def validate_not_stricter(F, S):
+    """BitmapFile::Validate refuses nothing the reader lets through: besides the verifiers the reader itself runs (or whose
+    effect the palette-size rule decides), every refusal written in Validate's own body has a counterpart among the
+    refusals every returning path of ReadIndexed has passed. (Otherwise the reader returns bitmaps its own Validate rejects.)"""
+    from ..rules_valid import abstract, amatch, var_types, global_var_types
+    from ..flow import cond_facts
+    out = []
+    rd = F.fn(B + "::ReadIndexed", nparams=1, pred=lambda f: "Reader &)" in f.key)
+    v = F.fn(B + "::Validate", nparams=0)
+    _e, rex = exit_events(F, S, rd)
+    called_names = {f[2].split("::")[-1] for f in rex if f[0] == "ev" and f[1] == "called"}
+    decided_elsewhere = {"VerifyIndexedPaletteSizeDoesNotExceedBitCount"}     # c08.palette_bound: the reader sizes the palette within 2^depth
+    inst = B + "::Validate#no-stricter-than-reader"
+    req = "every refusal BitmapFile::Validate makes is one every bitmap returned by ReadIndexed has passed"
+    problems = []
+    for nd in v.nodes:
+        if nd["k"] in CALLS:
+            for cal in F.callees(nd):
+                if cal.cfg and cal.file.startswith(F.repo) and S.may_throw(cal) and cal.name not in called_names and cal.name not in decided_elsewhere:
+                    problems.append("%s is run by Validate but not by the reader" % cal.name)
+    vt, gvt = var_types(rd), global_var_types(F)
+    have = []
+    for f in rex:
+        if f[0] == "ev" and f[1] == "passed":
+            have.append(_by_type(F, abstract(rd, f[2], vt, gvt)))
+    vvt = var_types(v)
+    n_inline = 0
+    for nd in v.nodes:
+        if nd["k"] != "IfStmt":
+            continue
+        for branch, truth in (("then", True), ("else", False)):
+            b = nd.get(branch)
+            if b is None:
+                continue
+            if any(v.n(x)["k"] == "CXXThrowExpr" for x in v.subtree(b)):
+                n_inline += 1
+                for f in cond_facts(v, nd["cond"], not truth):
+                    need = _by_type(F, abstract(v, f, vvt, gvt))
+                    if not any(amatch(need, h) or need == h for h in have):
+                        problems.append("Validate refuses unless %s, which the reader never checks" % fmt_fact(f))
+    if problems:
+        out.append(bad("R-SIB", inst, v.loc(v.body), v.qn, req, "; ".join(problems)))
+    else:
+        out.append(ok("R-SIB", inst, v.loc(v.body), v.qn, req, "%d verifier calls shared with the reader, %d inline refusals matched" % (len(called_names), n_inline)))
+    return out
+
+
 def _dim_facts(ex, w, h):
     has_w = ("<=", ("const", 0), w) in ex
     has_h = any(f[0] == "!=" and h in (f[1], f[2]) and ("const", -2147483648) in (f[1], f[2]) for f in ex)
